@@ -2,6 +2,7 @@ import PV.Model.Eval
 import PV.Model.Ops
 import PV.Model.Traverse
 import PV.Driver.GAOps
+import PV.Driver.EvalTableOps
 import PV.Driver.SubstOps
 import PV.Driver.C13GroupOps
 import PV.Driver.MatchpyOps
@@ -216,6 +217,7 @@ def handlers : List (Sexp → Option Sexp) :=
    , handleMatchpy
    , handleC13Groups
    , handleSubst
+   , handleEvalTable
    -- HANDLERS
   ]
 
